@@ -430,6 +430,36 @@ func drawPool(t *rapid.T, label string, maxShapes, maxEdges int) []gen.ShapeSpec
 	return gen.ShapeSet(t, label, maxShapes, maxEdges)
 }
 
+// drawPoolWithEmpties is drawPool for index histories (see below).
+func drawPoolWithEmpties(t *rapid.T, label string, maxShapes, maxEdges int) []gen.ShapeSpec {
+	pool := gen.ShapeSet(t, label, maxShapes, maxEdges)
+	// In 1 of 4 pools, add one or two shapes without any edge or interior (empty
+	// polyline / point vector / lax polyline, one-vertex polyline): an index
+	// whose first build saw only such shapes has no cells at all, a state that
+	// later additions must still handle.
+	if rapid.IntRange(0, 3).Draw(t, label+".empties") == 0 {
+		k := rapid.IntRange(1, 2).Draw(t, label+".nempty")
+		for i := 0; i < k; i++ {
+			typ := rapid.SampledFrom([]string{"polyline", "points", "laxpolyline", "polyline1"}).Draw(t, label+".etype")
+			spec := gen.ShapeSpec{Type: typ, Loops: [][]gen.P{{}}}
+			if typ == "polyline1" {
+				if av := allVerts(pool); len(av) > 0 {
+					spec = gen.ShapeSpec{Type: "polyline", Loops: [][]gen.P{{av[0]}}}
+				} else {
+					spec = gen.ShapeSpec{Type: "polyline", Loops: [][]gen.P{{}}}
+				}
+			}
+			// put them first in half of the cases, so that histories often start with them
+			if rapid.Bool().Draw(t, label+".efirst") {
+				pool = append([]gen.ShapeSpec{spec}, pool...)
+			} else {
+				pool = append(pool, spec)
+			}
+		}
+	}
+	return pool
+}
+
 // drawTarget draws a point / edge / cell target near the given vertices.
 func drawTarget(t *rapid.T, label string, verts []gen.P, allowIndex bool) tspec {
 	hi := 5
